@@ -327,26 +327,49 @@ def readModel (s : List Char × List Char × Bool) : Except TokErr (List Char ×
     if c.isDigit then .ok ((spanDigits s.1).2, s.2.1 ++ (spanDigits s.1).1, false)
     else if s.2.2 then .error .valueError else .ok s
 
+/-- Variant: the loop runs while the next character is a digit and remembers the character it stopped at. -/
+def readModelB (s : List Char × List Char × Option Char) : Except TokErr (List Char × List Char × Option Char) :=
+  .ok ((spanDigits s.1).2, s.2.1 ++ (spanDigits s.1).1, (spanDigits s.1).2.head?)
+
 theorem readUnsignedInt_eq (rest : List Char) : readUnsignedInt rest = readSpec rest := by
-  unfold readUnsignedInt
-  simp only []
-  rw [pyLoopM_eq _ readModel (fun s => s.1.length)
-    (by
-      rintro ⟨cs, res, first⟩
-      rcases cs with _ | ⟨c, cs⟩
-      · simp only [readModel]
-        all_goals st_split
-      · simp only [readModel]
-        by_cases hc : c.isDigit = true <;> simp only [hc, if_true, if_false, Bool.false_eq_true]
-        · refine ⟨by simp, ?_⟩
-          rcases cs with _ | ⟨d, cs⟩
-          · simp [spanDigits, hc]
-          · by_cases hd : d.isDigit = true <;> simp [hd, hc, spanDigits]
-        · cases first <;> simp)
-    _ _ (by simp only []; omega)]
-  rcases rest with _ | ⟨c, cs⟩ <;> simp only [readModel, readSpec, Except.map]
-  · rfl
-  · by_cases hc : c.isDigit = true <;> simp [hc]
+  first
+  | (
+    unfold readUnsignedInt
+    simp only []
+    rw [pyLoopM_eq _ readModel (fun s => s.1.length)
+      (by
+        rintro ⟨cs, res, first⟩
+        rcases cs with _ | ⟨c, cs⟩
+        · simp only [readModel]
+          all_goals st_split
+        · simp only [readModel]
+          by_cases hc : c.isDigit = true <;> simp only [hc, if_true, if_false, Bool.false_eq_true]
+          · refine ⟨by simp, ?_⟩
+            rcases cs with _ | ⟨d, cs⟩
+            · simp [spanDigits, hc]
+            · by_cases hd : d.isDigit = true <;> simp [hd, hc, spanDigits]
+          · cases first <;> simp)
+      _ _ (by simp only []; omega)]
+    rcases rest with _ | ⟨c, cs⟩ <;> simp only [readModel, readSpec, Except.map]
+    · rfl
+    · by_cases hc : c.isDigit = true <;> simp [hc])
+  | (
+    unfold readUnsignedInt
+    simp only []
+    rw [pyLoopM_eq _ readModelB (fun s => s.1.length)
+      (by
+        rintro ⟨cs, res, ch⟩
+        rcases cs with _ | ⟨c, cs⟩
+        · simp [readModelB, spanDigits]
+        · simp only [readModelB]
+          by_cases hc : c.isDigit = true <;> simp [hc, spanDigits])
+      _ _ (by simp only []; omega)]
+    rcases rest with _ | ⟨c, cs⟩
+    · simp [readModelB, readSpec, Except.map, spanDigits]
+    · by_cases hc : c.isDigit = true
+      · simp only [readModelB, readSpec, Except.map, spanDigits, hc, if_true, Option.getD_some, List.nil_append]
+        cases h : (spanDigits cs).2 <;> simp
+      · simp [readModelB, readSpec, Except.map, spanDigits, hc])
 
 /-- `Tokenizer.__next__`: skip whitespace; an operator character is a token; `#` starts a metric token; anything else
 is a `ValueError`; the end of the input is `StopIteration`. -/
@@ -373,51 +396,131 @@ theorem readSpec_err {cs : List Char} {a : TokErr} (h : readSpec cs = .error a) 
 
 theorem mem_chars (c : Char) (l : List Char) : (l.contains c = true) = (c ∈ l) := by simp
 
+/-- Variant: the loop only skips whitespace (remembering the last character read, and whether it left by `break`). -/
+def skipWs : List Char → Char → (List Char × Char) × Bool
+  | [], ch => (([], ch), false)
+  | c :: cs, ch => if isWs c then skipWs cs c else ((cs, c), true)
+
+theorem skipWs_notws (rest : List Char) : ∀ (ch : Char) (r : List Char) (c : Char),
+    skipWs rest ch = ((r, c), true) → isWs c = false := by
+  induction rest with
+  | nil => intro ch r c h; simp [skipWs] at h
+  | cons d ds ih =>
+    intro ch r c h
+    simp only [skipWs] at h
+    split_ifs at h with hd
+    · exact ih _ _ _ h
+    · simp only [Prod.mk.injEq, and_true] at h; rw [← h.2]; simpa using hd
+
+theorem nextSpec_skip (rest : List Char) : ∀ ch : Char,
+    nextSpec rest =
+      match skipWs rest ch with
+      | ((r, c), true) =>
+        if isOperChar c then .ok (.oper c, r)
+        else if c = Extracted.Formula.metricChar then (readSpec r).map (fun x => (.metric x.1, x.2))
+        else .error .valueError
+      | (_, false) => .error .stopIteration := by
+  induction rest with
+  | nil => intro ch; simp [nextSpec, skipWs]
+  | cons d ds ih =>
+    intro ch
+    simp only [nextSpec, skipWs]
+    by_cases hd : isWs d = true
+    · simp only [hd, if_true]; exact ih d
+    · have hd' : isWs d = false := by simpa using hd
+      simp only [hd', Bool.false_eq_true, if_false]
+
 theorem nextToken_eq (rest : List Char) : nextToken rest = nextSpec rest := by
-  unfold nextToken
-  simp only [readUnsignedInt_eq]
-  rw [pyLoopM_eq _ nextModel (fun s => s.length)
-    (by
-      intro s
-      rcases s with _ | ⟨c, cs⟩
-      · simp only [nextModel, nextSpec]
-        all_goals st_split
-      · -- the character is whitespace / an operator / the marker / something else: decided per concrete character
-        have hrs : ∀ a, readSpec cs = .error a → a = .valueError := fun a h => readSpec_err h
-        by_cases hw : isWs c = true
-        · have hw' := hw
-          simp only [isWs, Extracted.Formula.wsChars, mem_chars, List.mem_cons, List.not_mem_nil, or_false] at hw'
-          simp only [nextModel, nextSpec, hw, if_true]
-          casesm* _ ∨ _ <;> subst_vars <;> simp (config := { decide := true }) only [if_true, if_false, List.contains_cons,
-            List.contains_nil, Bool.or_false, Bool.or_true, Bool.true_or, beq_self_eq_true, List.length_cons] <;>
-            first | (refine ⟨by omega, ?_⟩; rfl) | (simp; done) | st_split
-        · have hw' : isWs c = false := by simpa using hw
-          by_cases ho : isOperChar c = true
-          · have ho' := ho
-            simp only [isOperChar, Extracted.Formula.operChars, mem_chars, List.mem_cons, List.not_mem_nil, or_false] at ho'
-            simp only [nextModel, nextSpec, hw', ho, if_true, if_false, Bool.false_eq_true]
+  first
+  | (
+    unfold nextToken
+    simp only [readUnsignedInt_eq]
+    rw [pyLoopM_eq _ nextModel (fun s => s.length)
+      (by
+        intro s
+        rcases s with _ | ⟨c, cs⟩
+        · simp only [nextModel, nextSpec]
+          all_goals st_split
+        · -- the character is whitespace / an operator / the marker / something else: decided per concrete character
+          have hrs : ∀ a, readSpec cs = .error a → a = .valueError := fun a h => readSpec_err h
+          by_cases hw : isWs c = true
+          · have hw' := hw
+            simp only [isWs, Extracted.Formula.wsChars, mem_chars, List.mem_cons, List.not_mem_nil, or_false] at hw'
+            simp only [nextModel, nextSpec, hw, if_true]
             casesm* _ ∨ _ <;> subst_vars <;> simp (config := { decide := true }) only [if_true, if_false, List.contains_cons,
-              List.contains_nil, Bool.or_false, Bool.or_true, Bool.true_or, beq_self_eq_true] <;>
-              first | rfl | (simp; done) | st_split
-          · have ho' : isOperChar c = false := by simpa using ho
-            by_cases hm : c = Extracted.Formula.metricChar
-            · subst hm
-              simp only [nextModel, nextSpec, hw', ho', if_true, if_false, Bool.false_eq_true]
-              simp (config := { decide := true }) only [Extracted.Formula.metricChar, if_true, if_false, List.contains_cons,
-                List.contains_nil, Bool.or_false, Bool.or_true, Bool.true_or, beq_self_eq_true, readUnsignedInt_eq]
-              cases hr : readSpec cs with
-              | error a => have := hrs a hr; subst this; simp [Except.map]
-              | ok v => simp [Except.map]
-            · simp only [nextModel, nextSpec, hw', ho', hm, if_true, if_false, Bool.false_eq_true]
-              simp only [isWs, isOperChar, Extracted.Formula.wsChars, Extracted.Formula.operChars,
-                Extracted.Formula.metricChar, mem_chars, List.mem_cons, List.not_mem_nil, or_false, not_or,
-                Bool.eq_false_iff, ne_eq] at hw hw' ho ho' hm
-              simp_all)
-    _ _ (by first | (simp only []; omega) | omega | simp)]
-  simp only [nextModel]
-  cases h : nextSpec rest with
-  | error e => cases e <;> simp [Except.map]
-  | ok v => obtain ⟨t, r⟩ := v; simp [Except.map]
+              List.contains_nil, Bool.or_false, Bool.or_true, Bool.true_or, beq_self_eq_true, List.length_cons] <;>
+              first | (refine ⟨by omega, ?_⟩; rfl) | (simp; done) | st_split
+          · have hw' : isWs c = false := by simpa using hw
+            by_cases ho : isOperChar c = true
+            · have ho' := ho
+              simp only [isOperChar, Extracted.Formula.operChars, mem_chars, List.mem_cons, List.not_mem_nil, or_false] at ho'
+              simp only [nextModel, nextSpec, hw', ho, if_true, if_false, Bool.false_eq_true]
+              casesm* _ ∨ _ <;> subst_vars <;> simp (config := { decide := true }) only [if_true, if_false, List.contains_cons,
+                List.contains_nil, Bool.or_false, Bool.or_true, Bool.true_or, beq_self_eq_true] <;>
+                first | rfl | (simp; done) | st_split
+            · have ho' : isOperChar c = false := by simpa using ho
+              by_cases hm : c = Extracted.Formula.metricChar
+              · subst hm
+                simp only [nextModel, nextSpec, hw', ho', if_true, if_false, Bool.false_eq_true]
+                simp (config := { decide := true }) only [Extracted.Formula.metricChar, if_true, if_false, List.contains_cons,
+                  List.contains_nil, Bool.or_false, Bool.or_true, Bool.true_or, beq_self_eq_true, readUnsignedInt_eq]
+                cases hr : readSpec cs with
+                | error a => have := hrs a hr; subst this; simp [Except.map]
+                | ok v => simp [Except.map]
+              · simp only [nextModel, nextSpec, hw', ho', hm, if_true, if_false, Bool.false_eq_true]
+                simp only [isWs, isOperChar, Extracted.Formula.wsChars, Extracted.Formula.operChars,
+                  Extracted.Formula.metricChar, mem_chars, List.mem_cons, List.not_mem_nil, or_false, not_or,
+                  Bool.eq_false_iff, ne_eq] at hw hw' ho ho' hm
+                simp_all)
+      _ _ (by first | (simp only []; omega) | omega | simp)]
+    simp only [nextModel]
+    cases h : nextSpec rest with
+    | error e => cases e <;> simp [Except.map]
+    | ok v => obtain ⟨t, r⟩ := v; simp [Except.map])
+  | (
+    unfold nextToken
+    simp only [readUnsignedInt_eq]
+    rw [pyLoopM_eq _ (fun s => .ok (skipWs s.1 s.2)) (fun s => s.1.length)
+      (by
+        rintro ⟨cs, ch⟩
+        rcases cs with _ | ⟨c, cs⟩
+        · simp [skipWs]
+        · by_cases hw : isWs c = true
+          · have hw' := hw
+            simp only [isWs, Extracted.Formula.wsChars, mem_chars, List.mem_cons, List.not_mem_nil, or_false] at hw'
+            simp only [skipWs, hw, if_true]
+            casesm* _ ∨ _ <;> subst_vars <;> simp (config := { decide := true })
+          · have hw' : isWs c = false := by simpa using hw
+            simp only [skipWs, hw', Bool.false_eq_true, if_false]
+            simp only [isWs, Extracted.Formula.wsChars, mem_chars, List.mem_cons, List.not_mem_nil, or_false, not_or,
+              Bool.eq_false_iff, ne_eq] at hw hw'
+            simp_all)
+      _ _ (by first | (simp only []; omega) | omega | simp)]
+    rw [nextSpec_skip rest (Char.ofNat 0)]
+    cases h : skipWs rest (Char.ofNat 0) with
+    | mk rc b =>
+      obtain ⟨r, c⟩ := rc
+      cases b
+      · simp [Except.map]
+      · have hws := skipWs_notws rest _ r c h
+        simp only [Except.map, Option.getD_some, if_true]
+        by_cases ho : isOperChar c = true
+        · have ho' := ho
+          simp only [isOperChar, Extracted.Formula.operChars, mem_chars, List.mem_cons, List.not_mem_nil, or_false] at ho'
+          simp only [ho, if_true]
+          casesm* _ ∨ _ <;> subst_vars <;> simp (config := { decide := true })
+        · have ho' : isOperChar c = false := by simpa using ho
+          by_cases hm : c = Extracted.Formula.metricChar
+          · subst hm
+            simp only [ho', Bool.false_eq_true, if_false, if_true]
+            simp (config := { decide := true }) only [Extracted.Formula.metricChar, if_true, if_false]
+            cases hr : readSpec r with
+            | error a => have := readSpec_err hr; subst this; simp [Except.map]
+            | ok v => simp [Except.map]
+          · simp only [ho', hm, Bool.false_eq_true, if_false]
+            simp only [isOperChar, Extracted.Formula.operChars, Extracted.Formula.metricChar, mem_chars, List.mem_cons,
+              List.not_mem_nil, or_false, not_or, Bool.eq_false_iff, ne_eq] at ho ho' hm
+            simp_all)
 
 /-! #### Model side: `tokGo` (a three-mode automaton) run along `nextSpec` -/
 
